@@ -53,6 +53,8 @@ def gen(g, tier):
         "fault": None,
         "stop": g.pick(["stop", "stop", "stop", "exit"]),
     }
+    if g.coin(0.25):
+        cfg["alias"] = sorted(g.sample(range(len(targets)), g.randint(1, len(targets))))
     k = g.weighted([5, 3, 3, 1])
     if k == 3 and remotes and not cfg["external"]:
         # the convention leader announces a daemon that has already checked in once more (a member that was considered lost for a
@@ -306,6 +308,15 @@ class MechanicHarness(Harness):
             def store_results(self, race):
                 rec.events.append((clock.now, "results-stored", cur_ip(), results_of.get(id(race.results))))
 
+        from esrally.utils import net as rally_net
+
+        orig_resolve = rally_net.resolve
+
+        def resolve(name):
+            if name and name.startswith("node-"):
+                return name[5:].replace("-", ".")
+            return orig_resolve(name)
+
         saved_metrics = (metrics.calculate_system_results, metrics.race_store, metrics.results_store)
         saved = (supplier.create, provisioner.local, launcher.ProcessLauncher, mechanic.load_team, metrics.InMemoryMetricsStore.flush)
         replies = []
@@ -346,6 +357,7 @@ class MechanicHarness(Harness):
             mechanic.load_team = lambda cfg_, external: (None, [])
             metrics.InMemoryMetricsStore.flush = flush
             metrics.calculate_system_results = calc_system_results
+            rally_net.resolve = resolve
             metrics.race_store = lambda cfg_: StubRaceStore()
             metrics.results_store = lambda cfg_: StubResultsStore()
             with rallyenv.patched_time(clock):
@@ -357,7 +369,9 @@ class MechanicHarness(Harness):
                 rcfg.add(A, "system", "time.start", datetime.datetime(2024, 1, 1, 12, 0, 0))
                 rcfg.add(A, "system", "race.id", "race-mech-1")
                 rcfg.add(A, "system", "install.id", "race-mech-1")
-                hosts_opt = opts.TargetHosts(",".join(cfg["targets"]))
+                # some targets are written as a host name that resolves to the IP (the same machine may be named in two ways)
+                written = [f"node-{t.split(':')[0].replace('.', '-')}:{t.split(':')[1]}" if i in (cfg.get("alias") or []) else t for i, t in enumerate(cfg["targets"])]
+                hosts_opt = opts.TargetHosts(",".join(written))
                 rcfg.add(A, "client", "hosts", hosts_opt)
                 rcfg.add(A, "client", "options", opts.ClientOptions("timeout:60", target_hosts=hosts_opt))
                 rcfg.add(A, "mechanic", "car.names", ["defaults"])
@@ -431,6 +445,7 @@ class MechanicHarness(Harness):
         finally:
             supplier.create, provisioner.local, launcher.ProcessLauncher, mechanic.load_team, metrics.InMemoryMetricsStore.flush = saved
             metrics.calculate_system_results, metrics.race_store, metrics.results_store = saved_metrics
+            rally_net.resolve = orig_resolve
 
         try:
             for kname, v in system.faults.items():
